@@ -4,6 +4,7 @@ import Mpir.Model.Kernels
 import Mathlib.Tactic.Ring
 import Mathlib.Tactic.Linarith
 import Mathlib.Tactic.IntervalCases
+import Mathlib.Tactic.LinearCombination
 namespace Mpir
 
 
@@ -44,4 +45,570 @@ theorem addNC_val : ∀ (u v : List Nat) (cy : Nat), Limbs u → Limbs v → u.l
     generalize ((u + v) % B + cy) % B = rl at *
     generalize (addNC us vs c) = res at *
     nlinarith [ihv, e]
+
+/-! ### sub_n -/
+
+/-- one limb of sub_n: the C's borrow tests compute the true borrow -/
+theorem sub_limb (u v cy sl rl c : Nat) (hu : u < B) (hv : v < B) (hc : cy ≤ 1)
+    (hsl : sl = (u + B - v) % B) (hrl : rl = (sl + B - cy) % B)
+    (hcd : c = boolToNat (decide (sl > u)) ||| boolToNat (decide (rl > sl))) :
+    rl + v + cy = u + B * c ∧ c ≤ 1 ∧ rl < B := by
+  rw [lor_bool] at hcd
+  simp only [B_eq] at *
+  split at hcd <;> omega
+
+theorem subNC_val : ∀ (u v : List Nat) (cy : Nat), Limbs u → Limbs v → u.length = v.length → cy ≤ 1 →
+    val (subNC u v cy).1 + val v + cy = val u + B ^ u.length * (subNC u v cy).2 ∧
+    (subNC u v cy).2 ≤ 1 ∧ Limbs (subNC u v cy).1 ∧ (subNC u v cy).1.length = u.length
+  | [], [], cy, _, _, _, hc => by simp [subNC, hc, Limbs_nil]
+  | [], _ :: _, _, _, _, h, _ => by simp at h
+  | _ :: _, [], _, _, _, h, _ => by simp at h
+  | u :: us, v :: vs, cy, hu, hv, hl, hc => by
+    have ⟨hu0, hus⟩ := Limbs_cons.mp hu
+    have ⟨hv0, hvs⟩ := Limbs_cons.mp hv
+    obtain ⟨sl, hsl⟩ : ∃ sl, sl = (u + B - v) % B := ⟨_, rfl⟩
+    obtain ⟨rl, hrl⟩ : ∃ rl, rl = (sl + B - cy) % B := ⟨_, rfl⟩
+    obtain ⟨c, hcd⟩ : ∃ c, c = boolToNat (decide (sl > u)) ||| boolToNat (decide (rl > sl)) := ⟨_, rfl⟩
+    have step : subNC (u :: us) (v :: vs) cy = (rl :: (subNC us vs c).1, (subNC us vs c).2) := by
+      rw [hcd, hrl, hsl]; simp only [subNC]
+    have ⟨e, c1, r1⟩ := sub_limb u v cy sl rl c hu0 hv0 hc hsl hrl hcd
+    obtain ⟨ihv, ihc, ihl, ihn⟩ := subNC_val us vs c hus hvs (by simpa using hl) c1
+    rw [step]
+    simp only [val_cons, List.length_cons, pow_succ]
+    refine ⟨?_, ihc, Limbs_cons.mpr ⟨r1, ihl⟩, by rw [ihn]⟩
+    generalize (subNC us vs c) = res at *
+    linear_combination e + B * ihv
+
+/-! ### add_1 / sub_1 / add / sub : carry propagation with early exit -/
+
+theorem incr_val : ∀ (u : List Nat), Limbs u →
+    val (incr u).1 + B ^ u.length * (incr u).2 = val u + 1 ∧
+    (incr u).2 ≤ 1 ∧ Limbs (incr u).1 ∧ (incr u).1.length = u.length
+  | [], _ => by simp [incr, Limbs_nil]
+  | x :: xs, h => by
+    have ⟨hx, hxs⟩ := Limbs_cons.mp h
+    obtain ⟨ihv, ihc, ihl, ihn⟩ := incr_val xs hxs
+    obtain ⟨r, hr⟩ : ∃ r, r = (x + 1) % B := ⟨_, rfl⟩
+    have step : incr (x :: xs) = if r < 1 then (r :: (incr xs).1, (incr xs).2) else (r :: xs, 0) := by
+      rw [hr]; simp only [incr]
+    rw [step]
+    have hrB : r < B := hr ▸ Nat.mod_lt _ B_pos
+    split
+    · simp only [val_cons, List.length_cons, pow_succ]
+      refine ⟨?_, ihc, Limbs_cons.mpr ⟨hrB, ihl⟩, by rw [ihn]⟩
+      have e : r + B = x + 1 := by simp only [B_eq] at *; omega
+      generalize incr xs = res at *
+      linear_combination e + B * ihv
+    · simp only [val_cons, List.length_cons, pow_succ]
+      refine ⟨?_, by omega, Limbs_cons.mpr ⟨hrB, hxs⟩, trivial⟩
+      have e : r = x + 1 := by simp only [B_eq] at *; omega
+      linear_combination e
+
+theorem decr_val : ∀ (u : List Nat), Limbs u →
+    val (decr u).1 + 1 = val u + B ^ u.length * (decr u).2 ∧
+    (decr u).2 ≤ 1 ∧ Limbs (decr u).1 ∧ (decr u).1.length = u.length
+  | [], _ => by simp [decr, Limbs_nil]
+  | x :: xs, h => by
+    have ⟨hx, hxs⟩ := Limbs_cons.mp h
+    obtain ⟨ihv, ihc, ihl, ihn⟩ := decr_val xs hxs
+    obtain ⟨r, hr⟩ : ∃ r, r = (x + B - 1) % B := ⟨_, rfl⟩
+    have step : decr (x :: xs) = if x < 1 then (r :: (decr xs).1, (decr xs).2) else (r :: xs, 0) := by
+      rw [hr]; simp only [decr]
+    rw [step]
+    have hrB : r < B := hr ▸ Nat.mod_lt _ B_pos
+    split
+    · simp only [val_cons, List.length_cons, pow_succ]
+      refine ⟨?_, ihc, Limbs_cons.mpr ⟨hrB, ihl⟩, by rw [ihn]⟩
+      have e : r + 1 = x + B := by simp only [B_eq] at *; omega
+      generalize decr xs = res at *
+      linear_combination e + B * ihv
+    · simp only [val_cons, List.length_cons, pow_succ]
+      refine ⟨?_, by omega, Limbs_cons.mpr ⟨hrB, hxs⟩, trivial⟩
+      have e : r + 1 = x := by simp only [B_eq] at *; omega
+      linear_combination e
+
+theorem add_1_val' (x : Nat) (xs : List Nat) (v : Nat) (h : Limbs (x :: xs)) (hv : v < B) :
+    val (add_1 (x :: xs) v).1 + B ^ (xs.length + 1) * (add_1 (x :: xs) v).2 = val (x :: xs) + v ∧
+    (add_1 (x :: xs) v).2 ≤ 1 ∧ Limbs (add_1 (x :: xs) v).1 ∧
+    (add_1 (x :: xs) v).1.length = xs.length + 1 := by
+  have ⟨hx, hxs⟩ := Limbs_cons.mp h
+  obtain ⟨ihv, ihc, ihl, ihn⟩ := incr_val xs hxs
+  obtain ⟨r, hr⟩ : ∃ r, r = (x + v) % B := ⟨_, rfl⟩
+  have step : add_1 (x :: xs) v = if r < v then (r :: (incr xs).1, (incr xs).2) else (r :: xs, 0) := by
+    rw [hr]; simp only [add_1]
+  rw [step]
+  have hrB : r < B := hr ▸ Nat.mod_lt _ B_pos
+  split
+  · simp only [val_cons, List.length_cons, pow_succ]
+    refine ⟨?_, ihc, Limbs_cons.mpr ⟨hrB, ihl⟩, by rw [ihn]⟩
+    have e : r + B = x + v := by simp only [B_eq] at *; omega
+    generalize incr xs = res at *
+    linear_combination e + B * ihv
+  · simp only [val_cons, List.length_cons, pow_succ]
+    refine ⟨?_, by omega, Limbs_cons.mpr ⟨hrB, hxs⟩, trivial⟩
+    have e : r = x + v := by simp only [B_eq] at *; omega
+    linear_combination e
+
+theorem sub_1_val' (x : Nat) (xs : List Nat) (v : Nat) (h : Limbs (x :: xs)) (hv : v < B) :
+    val (sub_1 (x :: xs) v).1 + v = val (x :: xs) + B ^ (xs.length + 1) * (sub_1 (x :: xs) v).2 ∧
+    (sub_1 (x :: xs) v).2 ≤ 1 ∧ Limbs (sub_1 (x :: xs) v).1 ∧
+    (sub_1 (x :: xs) v).1.length = xs.length + 1 := by
+  have ⟨hx, hxs⟩ := Limbs_cons.mp h
+  obtain ⟨ihv, ihc, ihl, ihn⟩ := decr_val xs hxs
+  obtain ⟨r, hr⟩ : ∃ r, r = (x + B - v) % B := ⟨_, rfl⟩
+  have step : sub_1 (x :: xs) v = if x < v then (r :: (decr xs).1, (decr xs).2) else (r :: xs, 0) := by
+    rw [hr]; simp only [sub_1]
+  rw [step]
+  have hrB : r < B := hr ▸ Nat.mod_lt _ B_pos
+  split
+  · simp only [val_cons, List.length_cons, pow_succ]
+    refine ⟨?_, ihc, Limbs_cons.mpr ⟨hrB, ihl⟩, by rw [ihn]⟩
+    have e : r + v = x + B := by simp only [B_eq] at *; omega
+    generalize decr xs = res at *
+    linear_combination e + B * ihv
+  · simp only [val_cons, List.length_cons, pow_succ]
+    refine ⟨?_, by omega, Limbs_cons.mpr ⟨hrB, hxs⟩, trivial⟩
+    have e : r + v = x := by simp only [B_eq] at *; omega
+    linear_combination e
+
+theorem add_val' (x y : List Nat) (hx : Limbs x) (hy : Limbs y) (hl : y.length ≤ x.length) :
+    val (add x y).1 + B ^ x.length * (add x y).2 = val x + val y ∧
+    (add x y).2 ≤ 1 ∧ Limbs (add x y).1 ∧ (add x y).1.length = x.length := by
+  have htl : (x.take y.length).length = y.length := by simp [hl]
+  have hdl : (x.drop y.length).length = x.length - y.length := by simp
+  obtain ⟨av, ac, al, an⟩ := addNC_val (x.take y.length) y 0 (Limbs_take hx _) hy htl (by omega)
+  obtain ⟨iv, ic, il, iN⟩ := incr_val (x.drop y.length) (Limbs_drop hx _)
+  have hsplit := val_take_drop x y.length hl
+  have hpow : B ^ x.length = B ^ y.length * B ^ (x.length - y.length) := by
+    rw [← pow_add]; congr 1; omega
+  rw [htl] at av an
+  rw [hdl] at iv iN
+  by_cases hc : (addNC (x.take y.length) y 0).2 = 0
+  · have e : add x y = ((addNC (x.take y.length) y 0).1 ++ x.drop y.length, 0) := by
+      simp [add, add_n, hc]
+    rw [e]
+    simp only [val_append, List.length_append, Limbs_append, an, hdl]
+    refine ⟨?_, by omega, ⟨al, Limbs_drop hx _⟩, by omega⟩
+    rw [hc] at av
+    linear_combination av - hsplit
+  · have e : add x y = ((addNC (x.take y.length) y 0).1 ++ (incr (x.drop y.length)).1,
+        (incr (x.drop y.length)).2) := by
+      simp [add, add_n, hc]
+    have hc1 : (addNC (x.take y.length) y 0).2 = 1 := by omega
+    rw [e]
+    simp only [val_append, List.length_append, Limbs_append, an, iN]
+    refine ⟨?_, ic, ⟨al, il⟩, by omega⟩
+    rw [hc1] at av
+    linear_combination av + B ^ y.length * iv - hsplit + (incr (x.drop y.length)).2 * hpow
+theorem sub_val' (x y : List Nat) (hx : Limbs x) (hy : Limbs y) (hl : y.length ≤ x.length) :
+    val (sub x y).1 + val y = val x + B ^ x.length * (sub x y).2 ∧
+    (sub x y).2 ≤ 1 ∧ Limbs (sub x y).1 ∧ (sub x y).1.length = x.length := by
+  have htl : (x.take y.length).length = y.length := by simp [hl]
+  have hdl : (x.drop y.length).length = x.length - y.length := by simp
+  obtain ⟨av, ac, al, an⟩ := subNC_val (x.take y.length) y 0 (Limbs_take hx _) hy htl (by omega)
+  obtain ⟨iv, ic, il, iN⟩ := decr_val (x.drop y.length) (Limbs_drop hx _)
+  have hsplit := val_take_drop x y.length hl
+  have hpow : B ^ x.length = B ^ y.length * B ^ (x.length - y.length) := by
+    rw [← pow_add]; congr 1; omega
+  rw [htl] at av an
+  rw [hdl] at iv iN
+  by_cases hc : (subNC (x.take y.length) y 0).2 = 0
+  · have e : sub x y = ((subNC (x.take y.length) y 0).1 ++ x.drop y.length, 0) := by
+      simp [sub, sub_n, hc]
+    rw [e]
+    simp only [val_append, List.length_append, Limbs_append, an, hdl]
+    refine ⟨?_, by omega, ⟨al, Limbs_drop hx _⟩, by omega⟩
+    rw [hc] at av
+    linear_combination av - hsplit
+  · have e : sub x y = ((subNC (x.take y.length) y 0).1 ++ (decr (x.drop y.length)).1,
+        (decr (x.drop y.length)).2) := by
+      simp [sub, sub_n, hc]
+    have hc1 : (subNC (x.take y.length) y 0).2 = 1 := by omega
+    rw [e]
+    simp only [val_append, List.length_append, Limbs_append, an, iN]
+    refine ⟨?_, ic, ⟨al, il⟩, by omega⟩
+    rw [hc1] at av
+    linear_combination av + B ^ y.length * iv - hsplit - (decr (x.drop y.length)).2 * hpow
+
+/-! ### com_n / neg_n -/
+
+theorem com_n_val' : ∀ (u : List Nat), Limbs u →
+    val (com_n u) + val u + 1 = B ^ u.length ∧ Limbs (com_n u) ∧ (com_n u).length = u.length
+  | [], _ => by simp [com_n, Limbs_nil]
+  | x :: xs, h => by
+    have ⟨hx, hxs⟩ := Limbs_cons.mp h
+    obtain ⟨ihv, ihl, ihn⟩ := com_n_val' xs hxs
+    have step : com_n (x :: xs) = (B - 1 - x) :: com_n xs := rfl
+    rw [step]
+    simp only [val_cons, List.length_cons, pow_succ]
+    refine ⟨?_, Limbs_cons.mpr ⟨by omega, ihl⟩, by rw [ihn]⟩
+    have e : (B - 1 - x) + x + 1 = B := by omega
+    linear_combination e + B * ihv
+
+theorem negNC_one : ∀ (u : List Nat), negNC u 1 = (com_n u, 1)
+  | [] => rfl
+  | x :: xs => by
+    have step : negNC (x :: xs) 1 = ((B - 1 - x) :: (negNC xs 1).1, (negNC xs 1).2) := by
+      simp [negNC]
+    rw [step, negNC_one xs]; rfl
+
+theorem negNC_zero_val : ∀ (u : List Nat), Limbs u →
+    val (negNC u 0).1 + val u = B ^ u.length * (negNC u 0).2 ∧
+    (((negNC u 0).2 = 0 ∧ val u = 0) ∨ ((negNC u 0).2 = 1 ∧ val u ≠ 0)) ∧
+    Limbs (negNC u 0).1 ∧ (negNC u 0).1.length = u.length
+  | [], _ => by simp [negNC, Limbs_nil]
+  | x :: xs, h => by
+    have ⟨hx, hxs⟩ := Limbs_cons.mp h
+    have hB := B_pos
+    by_cases hx0 : x = 0
+    · obtain ⟨ihv, ihc, ihl, ihn⟩ := negNC_zero_val xs hxs
+      have step : negNC (x :: xs) 0 = (0 :: (negNC xs 0).1, (negNC xs 0).2) := by
+        simp [negNC, hx0]
+      rw [step]
+      simp only [val_cons, List.length_cons, pow_succ]
+      refine ⟨?_, ?_, Limbs_cons.mpr ⟨B_pos, ihl⟩, by rw [ihn]⟩
+      · rw [hx0]; linear_combination B * ihv
+      · rcases ihc with ⟨c0, v0⟩ | ⟨c1, v1⟩
+        · left; exact ⟨c0, by rw [hx0, v0]; simp⟩
+        · right; refine ⟨c1, ?_⟩
+          have := Nat.mul_pos hB (Nat.pos_of_ne_zero v1); omega
+    · obtain ⟨cv, cl, cn⟩ := com_n_val' xs hxs
+      have step : negNC (x :: xs) 0 = (((B - x) % B) :: com_n xs, 1) := by
+        simp [negNC, hx0, negNC_one]
+      rw [step]
+      simp only [val_cons, List.length_cons, pow_succ]
+      have hr : (B - x) % B = B - x := Nat.mod_eq_of_lt (by omega)
+      rw [hr]
+      refine ⟨?_, Or.inr ⟨trivial, by omega⟩, Limbs_cons.mpr ⟨by omega, cl⟩, by rw [cn]⟩
+      have e : (B - x) + x = B := by omega
+      linear_combination e + B * cv
+/-! ### lshift / rshift -/
+
+theorem B_split (c : Nat) (hc : c ≤ 64) : B = 2 ^ c * 2 ^ (64 - c) := by
+  rw [← pow_add]; unfold B; congr 1; omega
+
+/-- one limb of lshift: the `|` of the shifted limb and the bits carried in is an addition -/
+theorem lshift_limb (x lo c : Nat) (hc : c ≤ 64) (hlo : lo < 2 ^ c) :
+    ((x <<< c) % B ||| lo) + B * (x >>> (64 - c)) = x * 2 ^ c + lo ∧
+    ((x <<< c) % B ||| lo) < B := by
+  have hB := B_split c hc
+  have h1 : (x <<< c) % B = 2 ^ c * (x % 2 ^ (64 - c)) := by
+    rw [Nat.shiftLeft_eq, hB, Nat.mul_comm x, Nat.mul_mod_mul_left]
+  rw [h1, ← Nat.two_pow_add_eq_or_of_lt hlo, Nat.shiftRight_eq_div_pow]
+  have hdm := Nat.div_add_mod x (2 ^ (64 - c))
+  have hlt : x % 2 ^ (64 - c) < 2 ^ (64 - c) := Nat.mod_lt _ (by positivity)
+  constructor
+  · rw [hB]; linear_combination (2 ^ c) * hdm
+  · rw [hB]
+    have : 2 ^ c * (x % 2 ^ (64 - c) + 1) ≤ 2 ^ c * 2 ^ (64 - c) := Nat.mul_le_mul_left _ hlt
+    linarith
+
+theorem shr_lt (x c : Nat) (hc : c ≤ 64) (hx : x < B) : x >>> (64 - c) < 2 ^ c := by
+  rw [Nat.shiftRight_eq_div_pow, Nat.div_lt_iff_lt_mul (by positivity), ← B_split c hc]; exact hx
+
+theorem lshiftGo_val (c : Nat) (hc : c ≤ 64) : ∀ (u : List Nat) (lo : Nat), Limbs u → lo < 2 ^ c →
+    val (lshiftGo c u lo).1 + B ^ u.length * (lshiftGo c u lo).2 = val u * 2 ^ c + lo ∧
+    (lshiftGo c u lo).2 < 2 ^ c ∧ Limbs (lshiftGo c u lo).1 ∧ (lshiftGo c u lo).1.length = u.length
+  | [], lo, _, hlo => by simp [lshiftGo, hlo, Limbs_nil]
+  | x :: xs, lo, h, hlo => by
+    have ⟨hx, hxs⟩ := Limbs_cons.mp h
+    obtain ⟨e, hcur⟩ := lshift_limb x lo c hc hlo
+    obtain ⟨ihv, ihc, ihl, ihn⟩ := lshiftGo_val c hc xs (x >>> (64 - c)) hxs (shr_lt x c hc hx)
+    have step : lshiftGo c (x :: xs) lo = (((x <<< c) % B ||| lo) :: (lshiftGo c xs (x >>> (64 - c))).1,
+        (lshiftGo c xs (x >>> (64 - c))).2) := by simp only [lshiftGo]
+    rw [step]
+    simp only [val_cons, List.length_cons, pow_succ]
+    refine ⟨?_, ihc, Limbs_cons.mpr ⟨hcur, ihl⟩, by rw [ihn]⟩
+    linear_combination e + B * ihv
+
+/-- one limb of rshift -/
+theorem rshift_limb (x c : Nat) (hc : c ≤ 64) :
+    (x >>> c) * B + (x <<< (64 - c)) % B = x * 2 ^ (64 - c) := by
+  have hB := B_split c hc
+  have h1 : (x <<< (64 - c)) % B = 2 ^ (64 - c) * (x % 2 ^ c) := by
+    rw [Nat.shiftLeft_eq, hB, Nat.mul_comm x, Nat.mul_comm (2 ^ c), Nat.mul_mod_mul_left]
+  rw [h1, Nat.shiftRight_eq_div_pow, hB]
+  have hdm := Nat.div_add_mod x (2 ^ c)
+  linear_combination (2 ^ (64 - c)) * hdm
+
+theorem rshift_or (x y c : Nat) (hc : c ≤ 64) (hx : x < B) :
+    ((x >>> c) ||| ((y <<< (64 - c)) % B)) = x >>> c + (y <<< (64 - c)) % B ∧
+    x >>> c + (y <<< (64 - c)) % B < B := by
+  have hB := B_split c hc
+  have h1 : (y <<< (64 - c)) % B = 2 ^ (64 - c) * (y % 2 ^ c) := by
+    rw [Nat.shiftLeft_eq, hB, Nat.mul_comm y, Nat.mul_comm (2 ^ c), Nat.mul_mod_mul_left]
+  have hxs : x >>> c < 2 ^ (64 - c) := by
+    rw [Nat.shiftRight_eq_div_pow, Nat.div_lt_iff_lt_mul (by positivity), Nat.mul_comm, ← hB]; exact hx
+  rw [h1]
+  constructor
+  · rw [Nat.or_comm, ← Nat.two_pow_add_eq_or_of_lt hxs, Nat.add_comm]
+  · have hlt : y % 2 ^ c < 2 ^ c := Nat.mod_lt _ (by positivity)
+    have : 2 ^ (64 - c) * (y % 2 ^ c + 1) ≤ 2 ^ (64 - c) * 2 ^ c := Nat.mul_le_mul_left _ hlt
+    rw [hB]; linarith
+
+theorem rshiftGo_val (c : Nat) (hc : c ≤ 64) : ∀ (xs : List Nat) (x : Nat), Limbs (x :: xs) →
+    val (rshiftGo c (x :: xs)) * B + (x <<< (64 - c)) % B = val (x :: xs) * 2 ^ (64 - c) ∧
+    Limbs (rshiftGo c (x :: xs)) ∧ (rshiftGo c (x :: xs)).length = xs.length + 1
+  | [], x, h => by
+    have ⟨hx, _⟩ := Limbs_cons.mp h
+    have step : rshiftGo c [x] = [x >>> c] := rfl
+    rw [step]
+    simp only [val_cons, val_nil, List.length_cons, List.length_nil]
+    refine ⟨?_, Limbs_cons.mpr ⟨?_, Limbs_nil⟩, trivial⟩
+    · linear_combination rshift_limb x c hc
+    · exact lt_of_le_of_lt (Nat.shiftRight_le _ _) hx
+  | y :: ys, x, h => by
+    have ⟨hx, hys⟩ := Limbs_cons.mp h
+    obtain ⟨ihv, ihl, ihn⟩ := rshiftGo_val c hc ys y hys
+    obtain ⟨eor, hcur⟩ := rshift_or x y c hc hx
+    have step : rshiftGo c (x :: y :: ys) =
+        ((x >>> c) ||| ((y <<< (64 - c)) % B)) :: rshiftGo c (y :: ys) := rfl
+    rw [step, eor]
+    simp only [val_cons, List.length_cons] at ihv ihn ⊢
+    refine ⟨?_, Limbs_cons.mpr ⟨hcur, ihl⟩, by rw [ihn]⟩
+    linear_combination rshift_limb x c hc + B * ihv
+theorem rshift_val' (x : Nat) (xs : List Nat) (c : Nat) (hu : Limbs (x :: xs)) (hc1 : 1 ≤ c) (hc : c ≤ 63) :
+    val (rshift (x :: xs) c).1 * B + (rshift (x :: xs) c).2 = val (x :: xs) * 2 ^ (64 - c) ∧
+    (rshift (x :: xs) c).2 < B ∧ Limbs (rshift (x :: xs) c).1 ∧
+    (rshift (x :: xs) c).1.length = (x :: xs).length ∧
+    val (rshift (x :: xs) c).1 = val (x :: xs) / 2 ^ c ∧
+    (rshift (x :: xs) c).2 = (val (x :: xs) % 2 ^ c) * 2 ^ (64 - c) := by
+  obtain ⟨hv, hl, hlen⟩ := rshiftGo_val c (by omega) xs x hu
+  have step : rshift (x :: xs) c = (rshiftGo c (x :: xs), (x <<< (64 - c)) % B) := rfl
+  rw [step]
+  have hB := B_split c (by omega)
+  have hret : (x <<< (64 - c)) % B < B := Nat.mod_lt _ B_pos
+  refine ⟨hv, hret, hl, hlen, ?_, ?_⟩
+  · have h := congrArg (· / B) hv
+    simp only [Nat.mul_comm _ B, Nat.mul_add_div B_pos, Nat.div_eq_of_lt hret, Nat.add_zero] at h
+    rw [h, hB, Nat.mul_comm (2 ^ c), Nat.mul_comm (val _), Nat.mul_div_mul_left _ _ (by positivity)]
+  · have h := congrArg (· % B) hv
+    simp only [Nat.mul_comm _ B, Nat.mul_add_mod, Nat.mod_eq_of_lt hret] at h
+    show (x <<< (64 - c)) % B = _
+    rw [h, hB, Nat.mul_comm (2 ^ c), Nat.mul_comm (val _), Nat.mul_mod_mul_left, Nat.mul_comm]
+
+/-! ### cmp / zero_p -/
+
+theorem val_reverse_cons (x : Nat) (xs : List Nat) :
+    val (x :: xs).reverse = val xs.reverse + B ^ xs.length * x := by
+  rw [List.reverse_cons, val_append, List.length_reverse]; simp
+
+theorem Limbs_reverse {l : List Nat} (h : Limbs l) : Limbs l.reverse :=
+  fun x hx => h x (List.mem_reverse.mp hx)
+
+/-- comparison from the most significant limb decides the order of the values
+    (`a`, `b` most significant first) -/
+theorem cmpRev_spec : ∀ (a b : List Nat), Limbs a → Limbs b → a.length = b.length →
+    (cmpRev a b = -1 ∧ val a.reverse < val b.reverse) ∨
+    (cmpRev a b = 0 ∧ val a.reverse = val b.reverse) ∨
+    (cmpRev a b = 1 ∧ val b.reverse < val a.reverse)
+  | [], [], _, _, _ => by simp [cmpRev]
+  | [], _ :: _, _, _, h => by simp at h
+  | _ :: _, [], _, _, h => by simp at h
+  | x :: xs, y :: ys, ha, hb, hl => by
+    have ⟨hx, hxs⟩ := Limbs_cons.mp ha
+    have ⟨hy, hys⟩ := Limbs_cons.mp hb
+    have hl' : xs.length = ys.length := by simpa using hl
+    have ih := cmpRev_spec xs ys hxs hys hl'
+    have bx := val_lt xs.reverse (Limbs_reverse hxs)
+    have bY := val_lt ys.reverse (Limbs_reverse hys)
+    rw [List.length_reverse] at bx bY
+    rw [val_reverse_cons, val_reverse_cons, ← hl']
+    rw [← hl'] at bY
+    generalize val xs.reverse = p at *
+    generalize val ys.reverse = q at *
+    generalize B ^ xs.length = P at *
+    have step : cmpRev (x :: xs) (y :: ys) =
+        if x ≠ y then (if x > y then 1 else -1) else cmpRev xs ys := rfl
+    rw [step]
+    by_cases hxy : x = y
+    · rw [if_neg (by simpa using hxy), hxy]
+      generalize P * y = t
+      omega
+    · rw [if_pos hxy]
+      by_cases hgt : x > y
+      · have : P * (y + 1) ≤ P * x := Nat.mul_le_mul_left _ hgt
+        rw [if_pos hgt]
+        right; right; exact ⟨rfl, by linarith⟩
+      · have : P * (x + 1) ≤ P * y := Nat.mul_le_mul_left _ (by omega)
+        rw [if_neg hgt]
+        left; exact ⟨rfl, by linarith⟩
+
+theorem zero_p_iff' : ∀ (u : List Nat), zero_p u = true ↔ val u = 0
+  | [] => by simp [zero_p]
+  | x :: xs => by
+    have ih := zero_p_iff' xs
+    have step : zero_p (x :: xs) = ((x == 0) && zero_p xs) := rfl
+    have hB := B_pos
+    rw [step, val_cons, Bool.and_eq_true, ih, beq_iff_eq]
+    constructor
+    · rintro ⟨h1, h2⟩; rw [h1, h2]; simp
+    · intro h
+      have h1 : x = 0 := by omega
+      have h2 : B * val xs = 0 := by omega
+      exact ⟨h1, (Nat.mul_eq_zero.mp h2).resolve_left (by omega)⟩
+/-! ### mul_1 / addmul_1 / submul_1 -/
+
+theorem boolToNat_decide (p : Prop) [Decidable p] : boolToNat (decide p) = if p then 1 else 0 := by
+  by_cases h : p <;> simp [boolToNat, h]
+
+theorem limb_mul_le (u v : Nat) (hu : u < B) (hv : v < B) :
+    u * v ≤ 340282366920938463426481119284349108225 := by
+  have : u * v ≤ (B - 1) * (B - 1) := Nat.mul_le_mul (by omega) (by omega)
+  simpa [B_eq] using this
+
+/-- one limb of mul_1: `lpl += cl; cl = (lpl < cl) + hpl` is the exact two-limb sum u·v + cl -/
+theorem mul1_limb (u v cl p lpl cl' : Nat) (hu : u < B) (hv : v < B) (hcl : cl < B)
+    (hp : p = u * v)
+    (hlpl : lpl = (p % B + cl) % B)
+    (hcl' : cl' = (boolToNat (decide (lpl < cl)) + p / B) % B) :
+    lpl + B * cl' = p + cl ∧ cl' < B ∧ lpl < B := by
+  have hb := limb_mul_le u v hu hv
+  rw [← hp] at hb
+  rw [boolToNat_decide] at hcl'
+  simp only [B_eq] at *
+  split at hcl' <;> omega
+
+theorem mul1C_val (v : Nat) (hv : v < B) : ∀ (u : List Nat) (cl : Nat), Limbs u → cl < B →
+    val (mul1C u v cl).1 + B ^ u.length * (mul1C u v cl).2 = val u * v + cl ∧
+    (mul1C u v cl).2 < B ∧ Limbs (mul1C u v cl).1 ∧ (mul1C u v cl).1.length = u.length
+  | [], cl, _, hcl => by simp [mul1C, hcl, Limbs_nil]
+  | u :: us, cl, h, hcl => by
+    have ⟨hu, hus⟩ := Limbs_cons.mp h
+    obtain ⟨lpl, hlpl⟩ : ∃ lpl, lpl = ((u * v) % B + cl) % B := ⟨_, rfl⟩
+    obtain ⟨cl', hcl'⟩ : ∃ c, c = (boolToNat (decide (lpl < cl)) + (u * v) / B) % B := ⟨_, rfl⟩
+    have step : mul1C (u :: us) v cl = (lpl :: (mul1C us v cl').1, (mul1C us v cl').2) := by
+      rw [hcl', hlpl]; simp only [mul1C, umul_ppmm]; rfl
+    obtain ⟨e, c1, r1⟩ := mul1_limb u v cl _ lpl cl' hu hv hcl rfl hlpl hcl'
+    obtain ⟨ihv, ihc, ihl, ihn⟩ := mul1C_val v hv us cl' hus c1
+    rw [step]
+    simp only [val_cons, List.length_cons, pow_succ]
+    refine ⟨?_, ihc, Limbs_cons.mpr ⟨r1, ihl⟩, by rw [ihn]⟩
+    linear_combination e + B * ihv
+
+/-- one limb of addmul_1 -/
+theorem addmul1_limb (r u v cl p lpl1 cl1 lpl cl2 : Nat) (hr : r < B) (hu : u < B) (hv : v < B)
+    (hcl : cl < B) (hp : p = u * v)
+    (h1 : lpl1 = (p % B + cl) % B)
+    (h2 : cl1 = (boolToNat (decide (lpl1 < cl)) + p / B) % B)
+    (h3 : lpl = (r + lpl1) % B)
+    (h4 : cl2 = (cl1 + boolToNat (decide (lpl < r))) % B) :
+    lpl + B * cl2 = r + p + cl ∧ cl2 < B ∧ lpl < B := by
+  have hb := limb_mul_le u v hu hv
+  rw [← hp] at hb
+  rw [boolToNat_decide] at h2 h4
+  simp only [B_eq] at *
+  split at h2 <;> split at h4 <;> omega
+
+theorem addmul1C_val (v : Nat) (hv : v < B) : ∀ (r u : List Nat) (cl : Nat), Limbs r → Limbs u →
+    r.length = u.length → cl < B →
+    val (addmul1C r u v cl).1 + B ^ u.length * (addmul1C r u v cl).2 = val r + val u * v + cl ∧
+    (addmul1C r u v cl).2 < B ∧ Limbs (addmul1C r u v cl).1 ∧ (addmul1C r u v cl).1.length = u.length
+  | [], [], cl, _, _, _, hcl => by simp [addmul1C, hcl, Limbs_nil]
+  | [], _ :: _, _, _, _, h, _ => by simp at h
+  | _ :: _, [], _, _, _, h, _ => by simp at h
+  | r :: rs, u :: us, cl, hr, hu, hl, hcl => by
+    have ⟨hr0, hrs⟩ := Limbs_cons.mp hr
+    have ⟨hu0, hus⟩ := Limbs_cons.mp hu
+    obtain ⟨lpl1, h1⟩ : ∃ x, x = ((u * v) % B + cl) % B := ⟨_, rfl⟩
+    obtain ⟨cl1, h2⟩ : ∃ x, x = (boolToNat (decide (lpl1 < cl)) + (u * v) / B) % B := ⟨_, rfl⟩
+    obtain ⟨lpl, h3⟩ : ∃ x, x = (r + lpl1) % B := ⟨_, rfl⟩
+    obtain ⟨cl2, h4⟩ : ∃ x, x = (cl1 + boolToNat (decide (lpl < r))) % B := ⟨_, rfl⟩
+    have step : addmul1C (r :: rs) (u :: us) v cl =
+        (lpl :: (addmul1C rs us v cl2).1, (addmul1C rs us v cl2).2) := by
+      rw [h4, h3, h2, h1]; simp only [addmul1C, umul_ppmm]; rfl
+    obtain ⟨e, c1, r1⟩ := addmul1_limb r u v cl _ lpl1 cl1 lpl cl2 hr0 hu0 hv hcl rfl h1 h2 h3 h4
+    obtain ⟨ihv, ihc, ihl, ihn⟩ := addmul1C_val v hv rs us cl2 hrs hus (by simpa using hl) c1
+    rw [step]
+    simp only [val_cons, List.length_cons, pow_succ]
+    refine ⟨?_, ihc, Limbs_cons.mpr ⟨r1, ihl⟩, by rw [ihn]⟩
+    linear_combination e + B * ihv
+
+/-- one limb of submul_1 -/
+theorem submul1_limb (r u v cl p lpl1 cl1 lpl cl2 : Nat) (hr : r < B) (hu : u < B) (hv : v < B)
+    (hcl : cl < B) (hp : p = u * v)
+    (h1 : lpl1 = (p % B + cl) % B)
+    (h2 : cl1 = (boolToNat (decide (lpl1 < cl)) + p / B) % B)
+    (h3 : lpl = (r + B - lpl1) % B)
+    (h4 : cl2 = (cl1 + boolToNat (decide (lpl > r))) % B) :
+    lpl + p + cl = r + B * cl2 ∧ cl2 < B ∧ lpl < B := by
+  have hb := limb_mul_le u v hu hv
+  rw [← hp] at hb
+  rw [boolToNat_decide] at h2 h4
+  simp only [B_eq] at *
+  split at h2 <;> split at h4 <;> omega
+
+theorem submul1C_val (v : Nat) (hv : v < B) : ∀ (r u : List Nat) (cl : Nat), Limbs r → Limbs u →
+    r.length = u.length → cl < B →
+    val (submul1C r u v cl).1 + val u * v + cl = val r + B ^ u.length * (submul1C r u v cl).2 ∧
+    (submul1C r u v cl).2 < B ∧ Limbs (submul1C r u v cl).1 ∧ (submul1C r u v cl).1.length = u.length
+  | [], [], cl, _, _, _, hcl => by simp [submul1C, hcl, Limbs_nil]
+  | [], _ :: _, _, _, _, h, _ => by simp at h
+  | _ :: _, [], _, _, _, h, _ => by simp at h
+  | r :: rs, u :: us, cl, hr, hu, hl, hcl => by
+    have ⟨hr0, hrs⟩ := Limbs_cons.mp hr
+    have ⟨hu0, hus⟩ := Limbs_cons.mp hu
+    obtain ⟨lpl1, h1⟩ : ∃ x, x = ((u * v) % B + cl) % B := ⟨_, rfl⟩
+    obtain ⟨cl1, h2⟩ : ∃ x, x = (boolToNat (decide (lpl1 < cl)) + (u * v) / B) % B := ⟨_, rfl⟩
+    obtain ⟨lpl, h3⟩ : ∃ x, x = (r + B - lpl1) % B := ⟨_, rfl⟩
+    obtain ⟨cl2, h4⟩ : ∃ x, x = (cl1 + boolToNat (decide (lpl > r))) % B := ⟨_, rfl⟩
+    have step : submul1C (r :: rs) (u :: us) v cl =
+        (lpl :: (submul1C rs us v cl2).1, (submul1C rs us v cl2).2) := by
+      rw [h4, h3, h2, h1]; simp only [submul1C, umul_ppmm]; rfl
+    obtain ⟨e, c1, r1⟩ := submul1_limb r u v cl _ lpl1 cl1 lpl cl2 hr0 hu0 hv hcl rfl h1 h2 h3 h4
+    obtain ⟨ihv, ihc, ihl, ihn⟩ := submul1C_val v hv rs us cl2 hrs hus (by simpa using hl) c1
+    rw [step]
+    simp only [val_cons, List.length_cons, pow_succ]
+    refine ⟨?_, ihc, Limbs_cons.mpr ⟨r1, ihl⟩, by rw [ihn]⟩
+    linear_combination e + B * ihv
+
+/-! ### mul_basecase -/
+
+theorem mulBasecaseRows_val (u : List Nat) (hu : Limbs u) : ∀ (vs acc : List Nat) (off : Nat),
+    Limbs vs → Limbs acc → acc.length = u.length + off →
+    val (mulBasecaseRows u vs acc off) = val acc + B ^ off * val u * val vs ∧
+    Limbs (mulBasecaseRows u vs acc off) ∧
+    (mulBasecaseRows u vs acc off).length = u.length + off + vs.length
+  | [], acc, off, _, hacc, hlen => by simp [mulBasecaseRows, hacc, hlen]
+  | v :: vs, acc, off, hvs, hacc, hlen => by
+    have ⟨hv, hvs'⟩ := Limbs_cons.mp hvs
+    have hmid : (acc.drop off).length = u.length := by simp [hlen]
+    have hlo : (acc.take off).length = off := by simp [hlen]
+    obtain ⟨av, ac, al, an⟩ := addmul1C_val v hv (acc.drop off) u 0 (Limbs_drop hacc _) hu hmid
+      B_pos
+    have hsplit := val_take_drop acc off (by omega)
+    have step : mulBasecaseRows u (v :: vs) acc off =
+        mulBasecaseRows u vs (acc.take off ++ (addmul1C (acc.drop off) u v 0).1 ++
+          [(addmul1C (acc.drop off) u v 0).2]) (off + 1) := by
+      simp only [mulBasecaseRows, addmul_1]
+    have hacc' : Limbs (acc.take off ++ (addmul1C (acc.drop off) u v 0).1 ++
+          [(addmul1C (acc.drop off) u v 0).2]) :=
+      Limbs_append.mpr ⟨Limbs_append.mpr ⟨Limbs_take hacc _, al⟩, Limbs_cons.mpr ⟨ac, Limbs_nil⟩⟩
+    obtain ⟨ihv, ihl, ihn⟩ := mulBasecaseRows_val u hu vs _ (off + 1) hvs' hacc'
+      (by simp only [List.length_append, hlo, an, List.length_cons, List.length_nil]; omega)
+    rw [step]
+    refine ⟨?_, ihl, by rw [ihn]; simp only [List.length_cons]; omega⟩
+    rw [ihv]
+    simp only [val_append, val_cons, val_nil, List.length_append, hlo, an, pow_succ, pow_add]
+    linear_combination B ^ off * av - hsplit
+
+theorem mul_basecase_val' (u : List Nat) (v0 : Nat) (vs : List Nat) (hu : Limbs u)
+    (hv : Limbs (v0 :: vs)) :
+    val (mul_basecase u (v0 :: vs)) = val u * val (v0 :: vs) ∧
+    Limbs (mul_basecase u (v0 :: vs)) ∧
+    (mul_basecase u (v0 :: vs)).length = u.length + (vs.length + 1) := by
+  have ⟨hv0, hvs⟩ := Limbs_cons.mp hv
+  obtain ⟨mv, mc, ml, mn⟩ := mul1C_val v0 hv0 u 0 hu B_pos
+  have step : mul_basecase u (v0 :: vs) =
+      mulBasecaseRows u vs ((mul1C u v0 0).1 ++ [(mul1C u v0 0).2]) 1 := by
+    simp only [mul_basecase, mul_1]
+  have hacc : Limbs ((mul1C u v0 0).1 ++ [(mul1C u v0 0).2]) :=
+    Limbs_append.mpr ⟨ml, Limbs_cons.mpr ⟨mc, Limbs_nil⟩⟩
+  obtain ⟨rv, rl, rn⟩ := mulBasecaseRows_val u hu vs _ 1 hvs hacc
+    (by simp only [List.length_append, mn, List.length_cons, List.length_nil])
+  rw [step]
+  refine ⟨?_, rl, by rw [rn]; omega⟩
+  rw [rv]
+  simp only [val_append, val_cons, val_nil, mn, pow_one]
+  linear_combination mv
 end Mpir
